@@ -557,3 +557,15 @@ Proof.
     + rewrite Ha in Ha2. inversion Ha2; subst i2 v2.
       destruct (IH _ _ _ _ Hrec Hrec') as (rest & Hr). exists rest. subst p r. reflexivity.
 Qed.
+
+Print Assumptions argmax_spec.
+Print Assumptions argmax_none.
+Print Assumptions argmin_spec.
+Print Assumptions argmin_none.
+Print Assumptions isort_perm.
+Print Assumptions isort_sorted.
+Print Assumptions ggreedy_terminates.
+Print Assumptions ggreedy_supported.
+Print Assumptions ggreedy_complete.
+Print Assumptions ggreedy_fop.
+Print Assumptions ggreedy_threshold_mono.
